@@ -28,5 +28,48 @@ PROPS = {
     },
 }
 
+PROPS.update({
+    "C01": {
+        "level": "proof",
+        "text": "Kernel-checked theorems over every label list: at_most_once, handled_were_accepted, rejected_never (state form and on the monitor predicate evaluated on real traces). The model's mailbox is tied to the code by per-run correspondence; the acceptance probe makes 'accepted' observable on the real side; monitors C01.atMostOnce / rejectedNever / gracefulComplete run on every real trace.",
+        "note": PROOF_NOTE + " graceful_complete is checked by the monitor on real traces and by correspondence; its theorem is not yet in Props/C01.lean.",
+        "technique": "Lean 4 invariant proofs (FIFO log, id freshness, rejection) by induction over label sequences + correspondence + Lean monitors on real traces",
+        "monitors": ["C01"],
+        "corr": corr(["burst", "mixed", "handles", "timeouts"]),
+        "extract_items": ["ask_wait_watches_closed"],
+        "assumptions": COMMON_ASSUME,
+    },
+    "C02": {
+        "level": "proof",
+        "text": "Kernel-checked: handler starts are exactly the envelopes of the taken prefix of the acceptance log, in order; the mailbox is the remaining suffix; an item is accepted at most once; the log only grows at its end - for every schedule, capacity and operation mix, the stop marker being an ordinary item of the same queue. Correspondence + monitors C02.fifo / idxInOrder / stopPrefix on real traces (acceptance order observed by the probe).",
+        "note": PROOF_NOTE,
+        "technique": "Lean 4 invariant proof (mailbox = suffix of acceptance log) + correspondence + Lean monitors on real traces",
+        "monitors": ["C02"],
+        "corr": corr(["burst", "mixed", "timeouts"]),
+        "extract_items": [],
+        "assumptions": COMMON_ASSUME,
+    },
+    "C10": {
+        "level": "proof",
+        "text": "Kernel-checked: Err(Timeout) is returned only by operations given a timeout and never before issue instant + timeout (never_early, on the monitor predicate), the timer label is guarded by the deadline, and is_retryable (translated from src/error.rs on every run) is true exactly for Timeout. Exactness on the virtual clock (fires at the deadline, other outcomes not later) is checked on every real trace by C10.exact and by step-by-step correspondence including return instants.",
+        "note": PROOF_NOTE + " Wall-clock behaviour of the blocking variants is outside the model (see C17).",
+        "technique": "Lean 4 invariant proof over label sequences + translated is_retryable + correspondence with virtual-clock return instants",
+        "monitors": ["C10"],
+        "corr": corr(["timeouts", "burst", "mixed"]),
+        "extract_items": ["ErrorKind"],
+        "assumptions": COMMON_ASSUME + ["tokio::time::timeout polls the inner future first and fires no earlier than its deadline"],
+    },
+    "C13": {
+        "level": "proof",
+        "text": "Kernel-checked for every run: dead letters = failing returns, as lists (each dead letter immediately followed by the failing return of the same operation with the matching reason; successes record none), hence the counter equals the number of failures. Real dead letters are captured from the tracing events by an in-process subscriber and compared event by event with the model; monitor C13.ok on every real trace.",
+        "note": PROOF_NOTE,
+        "technique": "Lean 4 fold-invariant proof over label sequences + correspondence on captured tracing dead-letter events",
+        "monitors": ["C13"],
+        "corr": corr(["timeouts", "burst", "mixed", "handles"]),
+        "extract_items": [],
+        "assumptions": COMMON_ASSUME + ["dead-letter operation labels are compared by family (tell/ask), DESIGN.md §7/C13"],
+    },
+})
+
 NOT_APPLICABLE = {p: "check not built yet in this session (work in progress; see DESIGN.md §12 build order)" for p in
                   ["C%02d" % i for i in range(1, 21)]}
